@@ -114,6 +114,57 @@ func c11ReaderSites(e *env) (string, error) {
 		fmt.Fprintf(&sb, "  (%q, %q, %q, %q, %q, %q, %q)%s\n", s.file, s.fn, s.call, s.reader, s.limit, rk, lk, c)
 		e.facts = append(e.facts, fact{Module: "C11ReaderSites", Kind: "callsite", Name: s.file + ":" + s.fn, Value: []string{s.call, s.reader, s.limit}})
 	}
+	sb.WriteString("]\n\n")
+	// the size guard of each reactor's decodeMsg (what Receive calls first on peer bytes) and the constant it compares with
+	sb.WriteString("/-- (file, guard: the first statement of decodeMsg is `if len(bz) > maxMsgSize { return … }` | noguard, the source text of\n    the package's maxMsgSize constant, the decoder decodeMsg calls) -/\n")
+	sb.WriteString("def decodeMsgGuards : List (String × String × String × String) := [\n")
+	reactors := []string{"blockchain/reactor.go", "consensus/reactor.go", "evidence/reactor.go", "mempool/reactor.go"}
+	for i, rel := range reactors {
+		fd, err := e.funcDecl(rel, "", "decodeMsg")
+		if err != nil {
+			return "", fmt.Errorf("anchor function not found: %s: decodeMsg", rel)
+		}
+		guard := "noguard"
+		if len(fd.Body.List) > 0 {
+			if ifs, ok := fd.Body.List[0].(*ast.IfStmt); ok && c11Src(e, ifs.Cond) == "len(bz) > maxMsgSize" && len(ifs.Body.List) > 0 {
+				if _, ok := ifs.Body.List[len(ifs.Body.List)-1].(*ast.ReturnStmt); ok {
+					guard = "guard"
+				}
+			}
+		}
+		dec := ""
+		ast.Inspect(fd.Body, func(n ast.Node) bool {
+			if ce, ok := n.(*ast.CallExpr); ok {
+				if sel, ok := ce.Fun.(*ast.SelectorExpr); ok {
+					if id, ok := sel.X.(*ast.Ident); ok && id.Name == "ser" {
+						dec = sel.Sel.Name
+					}
+				}
+			}
+			return true
+		})
+		max := "?"
+		f, _ := e.parse(rel)
+		for _, d := range f.Decls {
+			if gd, ok := d.(*ast.GenDecl); ok {
+				for _, sp := range gd.Specs {
+					if vs, ok := sp.(*ast.ValueSpec); ok {
+						for j, n := range vs.Names {
+							if n.Name == "maxMsgSize" && j < len(vs.Values) {
+								max = c11Src(e, vs.Values[j])
+							}
+						}
+					}
+				}
+			}
+		}
+		c := ","
+		if i == len(reactors)-1 {
+			c = ""
+		}
+		fmt.Fprintf(&sb, "  (%q, %q, %q, %q)%s\n", rel, guard, max, dec, c)
+		e.facts = append(e.facts, fact{Module: "C11ReaderSites", Kind: "guard", Name: rel + ":decodeMsg", Value: []string{guard, max, dec}})
+	}
 	sb.WriteString("]\n")
 	return sb.String(), nil
 }
